@@ -179,6 +179,11 @@ func (e *Engine) isNilTerm(v *Val) string {
 
 func (e *Engine) callFunction(fr *Frame, st *State, fn *ssa.Function, binds []*Val, args []*Val, pos token.Pos, k func(*State, *Val)) {
 	name := fn.String()
+	if name == "github.com/cenkalti/backoff/v4.Retry" {
+		if e.retryCall(fr, st, args, pos, k) {
+			return
+		}
+	}
 	if h, ok := intrinsics[name]; ok {
 		v, err := h(e, fr, st, args, pos)
 		if err != nil {
@@ -196,7 +201,19 @@ func (e *Engine) callFunction(fr *Frame, st *State, fn *ssa.Function, binds []*V
 				k(st2, res)
 			}
 		}
-		e.applyContract(fr, st, ct, fn, fn.Signature, args, pos, k2)
+		var cfr *Frame
+		if len(fn.FreeVars) > 0 && len(binds) == len(fn.FreeVars) {
+			cfr = &Frame{fn: fn, env: map[ssa.Value]*Val{}}
+			for i, fv := range fn.FreeVars {
+				cfr.env[fv] = binds[i]
+			}
+			for i, p := range fn.Params {
+				if i < len(args) {
+					cfr.env[p] = args[i]
+				}
+			}
+		}
+		e.applyContractFr(fr, st, ct, fn, fn.Signature, args, cfr, pos, k2)
 		return
 	}
 	if fn.Blocks != nil && (e.isRepoFunc(fn) || e.inlineWanted(name) || (fn.Synthetic != "" && strings.HasSuffix(name, "$bound"))) {
@@ -293,6 +310,12 @@ func shortName(n string) string {
 
 // applyContract uses a callee's contract at a call site.
 func (e *Engine) applyContract(fr *Frame, st *State, ct *Contract, fn *ssa.Function, sig *types.Signature, args []*Val, pos token.Pos, k func(*State, *Val)) {
+	e.applyContractFr(fr, st, ct, fn, sig, args, nil, pos, k)
+}
+
+// applyContractFr: cfr, when non-nil, is a pseudo-frame of the callee used to resolve names of its free
+// variables (closures called through a known function value).
+func (e *Engine) applyContractFr(fr *Frame, st *State, ct *Contract, fn *ssa.Function, sig *types.Signature, args []*Val, cfr *Frame, pos token.Pos, k func(*State, *Val)) {
 	if ct.Assumed {
 		e.assumedUsed[ct.Key] = true
 	}
@@ -311,7 +334,7 @@ func (e *Engine) applyContract(fr *Frame, st *State, ct *Contract, fn *ssa.Funct
 		vars[n] = args[i]
 	}
 	pre := st.snapshot()
-	ctx := &EvalCtx{e: e, st: st, old: pre, vars: vars, c: ct, pkg: e.pkgOfContract(ct, fn), assume: true, fr: nil}
+	ctx := &EvalCtx{e: e, st: st, old: pre, vars: vars, c: ct, pkg: e.pkgOfContract(ct, fn), assume: true, fr: cfr}
 	// preconditions are obligations of the caller
 	for _, rq := range ct.Requires {
 		ctx.assume = false
@@ -324,7 +347,7 @@ func (e *Engine) applyContract(fr *Frame, st *State, ct *Contract, fn *ssa.Funct
 		st.assume(v.T)
 	}
 	// havoc what the callee may modify
-	if err := e.havocModifies(st, ctx, ct.Modifies); err != nil {
+	if err := e.havocModifies(st, ctx, append(append([]string{}, ct.Modifies...), ct.GhostMod...)); err != nil {
 		e.errorf("%s: modifies of %s: %v", fr.fn, ct.Key, err)
 		return
 	}
@@ -673,6 +696,39 @@ var intrinsics = map[string]intrinsic{
 
 func init() {
 	intrinsics["fmt.Sprintf"] = sprintfIntrinsic
+}
+
+// retryCall models github.com/cenkalti/backoff/v4.Retry(op, b) for an operation that is a known closure with a
+// contract: any number of earlier attempts (everything op may modify is havocked), then one final attempt whose
+// outcome decides the result (nil iff that attempt returned nil).  Safety only: that the loop ends is assumed.
+func (e *Engine) retryCall(fr *Frame, st *State, args []*Val, pos token.Pos, k func(*State, *Val)) bool {
+	if len(args) < 1 || args[0].Fn == nil {
+		return false
+	}
+	op := args[0].Fn
+	ct := e.lookup(op.String())
+	if ct == nil {
+		return false
+	}
+	cfr := &Frame{fn: op, env: map[ssa.Value]*Val{}}
+	for i, fv := range op.FreeVars {
+		if i < len(args[0].Bind) {
+			cfr.env[fv] = args[0].Bind[i]
+		}
+	}
+	vars := map[string]*Val{}
+	ctx := &EvalCtx{e: e, st: st, old: st.snapshot(), vars: vars, c: ct, pkg: e.pkgOfContract(ct, op), assume: true, fr: cfr}
+	if err := e.havocModifies(st, ctx, ct.Modifies); err != nil {
+		e.errorf("%s: backoff.Retry: %v", fr.fn, err)
+		return true
+	}
+	st.trail = append(st.trail, "retry:last-attempt")
+	e.applyContractFr(fr, st, ct, op, op.Signature, nil, cfr, pos, func(st2 *State, res *Val) {
+		r := &Val{T: st2.fresh("retry_err", sErr), S: sErr, Typ: res.Typ}
+		st2.assume(eq(eq(r.T, "nil_err"), eq(res.T, "nil_err")))
+		k(st2, r)
+	})
+	return true
 }
 
 // sprintfIntrinsic expands fmt.Sprintf with a constant format whose verbs are %s (string operand), %d / %03d
